@@ -292,6 +292,7 @@ class DSDLDefinition(ReadableDSDLFile):
         except Error as ex:  # pragma: no cover
             if _verif_trace.ENABLED:
                 _verif_trace.emit("read_end", file=str(self.file_path), ok=False, cls=type(ex).__name__)
+                _verif_trace.emit("convert", layer="read", cls=type(ex).__name__, line=ex.line, path=str(ex.path), at=0)
             ex.set_error_location_if_unknown(path=self.file_path)
             raise ex
         except (MemoryError, SystemError):  # pragma: no cover
@@ -299,6 +300,7 @@ class DSDLDefinition(ReadableDSDLFile):
         except Exception as ex:  # pragma: no cover
             if _verif_trace.ENABLED:
                 _verif_trace.emit("read_end", file=str(self.file_path), ok=False, cls=type(ex).__name__)
+                _verif_trace.emit("convert", layer="read", cls="RAW:" + type(ex).__name__, line=None, path="None", at=0)
             raise InternalError(culprit=ex, path=self.file_path) from ex
 
     # +-----------------------------------------------------------------------+
